@@ -50,11 +50,11 @@ func isStringType(t types.Type) bool {
 // field (the lookup index) and exactly one slice-typed field (the ordered entry table); the table's
 // element type is a struct with one string-kinded field (the key) and one interface-typed field (the value).
 type basicMapRoles struct {
-	Map             *types.Named
-	Index, Table    string // qualified "plainMap.m" style names as printed by core.FieldName
-	Entry           *types.Named
-	EntryK, EntryV  string
-	IndexF, TableF  string // bare field names
+	Map              *types.Named
+	Index, Table     string // qualified "plainMap.m" style names as printed by core.FieldName
+	Entry            *types.Named
+	EntryK, EntryV   string
+	IndexF, TableF   string // bare field names
 	EntryKF, EntryVF string
 }
 
